@@ -160,6 +160,34 @@ def check(pid, tier, build, props):
                        + (" and 5 blocks" if sn.get("exh5") else "") + "; the rest is generated.",
         "snapshot_from_cache": sn.get("from_cache", False),
     }
+    if pid == "C04":
+        # the universal consistency theorem for edits of one level (LevelWf.level_edit_keeps_wf_b): its conditions
+        # are evaluated on every call of loop_restructure_helper and insert_block the pipeline makes
+        from . import ibcalls, loophcalls
+        lht = loophcalls.tie(tier, seed)
+        ibt = ibcalls.tie(tier, seed)
+        unmet = lht.get("calls_not_meeting_consistency_theorem_conditions", 0) + \
+            ibt.get("block_predecessor_calls_not_meeting_them", 0)
+        met = lht.get("calls_meeting_consistency_theorem_conditions", 0) + \
+            ibt.get("calls_meeting_consistency_theorem_conditions", 0)
+        herr = (lht.get("harness_errors") or []) + (ibt.get("harness_errors") or [])
+        coverage["level_edit_consistency_theorem"] = {
+            "loop_restructure_helper_calls_meeting_the_conditions": lht.get("calls_meeting_consistency_theorem_conditions"),
+            "loop_restructure_helper_calls": lht.get("calls_compared"),
+            "insert_block_calls_meeting_the_conditions": ibt.get("calls_meeting_consistency_theorem_conditions"),
+            "insert_block_calls": ibt.get("calls_compared"),
+            "insert_block_calls_with_a_region_predecessor_outside_the_theorem": ibt.get("other_calls_not_meeting_them"),
+            "role": "C04_level_edit_keeps_hierarchy_consistent_b: a call that edits the dictionary of one level keeps "
+                    "the hierarchy self-consistent when the conditions level_okb hold; evaluated per call together "
+                    "with 'the hierarchy the theorem speaks about is the one the implementation produced'"}
+        if unmet or herr or not met:
+            problems.append("the conditions of the universal consistency theorem for edits of one level "
+                            "(LevelWfRun.level_okb; or the hierarchy before the call is not self-consistent, or the "
+                            "hierarchy the theorem speaks about is not the one the implementation produced) fail on "
+                            "%d calls of loop_restructure_helper / insert_block the pipeline makes (%d meet them), "
+                            "first: %r%s" % (unmet, met,
+                                             (lht.get("consistency_unmet_examples") or ibt.get("consistency_unmet_examples") or [None])[:1],
+                                             (" harness: %r" % herr[:1]) if herr else ""))
     return {"coverage": coverage, "violations": violations, "problems": problems,
             "level": "translation_validation", "wall_s": t.s(),
             "broken_name": "theorem %s / checker columns %s" % (THEOREM[pid], [COLNAME[c] for _, c in cols])}
